@@ -174,9 +174,14 @@ fn tuples(shapes: Vec<Shape>) -> BoxedStrategy<Tuple> {
     let pats = prop::strategy::Union::new(shapes.iter().map(|&s| gen::pattern_pair(s)));
     let third = prop_oneof![3 => gen::pattern(sh0), 2 => (2u64..40).prop_map(move |x| Pat(Z::from_u64(x).to_le_wrapped(sh0.bytes)))];
     let text = prop_oneof![
-        4 => (gen::pattern(sh0), 0u8..3, any::<bool>()).prop_map(|(p, sign, upper)| {
+        4 => (gen::pattern(sh0), 0u8..3, any::<bool>(), prop_oneof![5 => Just(0usize), 2 => 1usize..4, 3 => 0usize..(sh0.bits() as usize + 8)], 0u32..40).prop_map(|(p, sign, upper, zeros, short)| {
             let mut s = match sign { 1 => "+".to_string(), 2 => "-".to_string(), _ => String::new() };
-            let body = Z::from_le_unsigned(&p.0).to_str_radix(10);
+            // redundant leading zeros (up to more than BITS of them), often before a short value:
+            // whether a padded numeral is accepted must not depend on the digit type
+            s.push_str(&"0".repeat(zeros));
+            let z = Z::from_le_unsigned(&p.0);
+            let z = if zeros > 3 && short < 30 { z.shr_floor(z.bit_len().saturating_sub(1 + short as u64)) } else { z };
+            let body = z.to_str_radix(10);
             s.push_str(&if upper { body.to_uppercase() } else { body });
             Bytes(s.into_bytes())
         }),
@@ -432,7 +437,7 @@ fn main() {
     runner::main(
         Property {
             id: "C16",
-            rule: "(a) For each of the width groups {16, 32, 48, 64, 96, 128, 192, 320, 2080, 4160} (2-4 digit types each; the last two have more than 256 digits of the narrowest digit type and a twelfth of the budget) one operand tuple (three W-bit patterns structured for the 8-bit and for the widest digit size, a shift/rotate amount, an exponent, a radix, a text / byte string, float bits) is loaded into every member and a table of ~280 operations (every overflow mode of add/sub/mul/div/rem, shifts, rotations, bit operations, comparison, pow, ilog, radix output, parsing of strings and digit slices, byte slices, all eight formatting traits with three flag specifications, casts to f32/f64/every primitive and from floats, operators with their profile-dependent panic outcome) is evaluated in each; results are normalised to strings ('Panicked' for a panic; the error kind of long invalid strings, which the property leaves open, to 'Err(any)') and must be identical across the group, and As casts between the members must preserve the pattern. Differential oracle, no reference model. (b) 18 (narrow, wide) pairs (same and different digit types, zero- and sign-extension): whenever the exact result is representable in the narrow type (decided by the reference integer), add/sub/mul/div/rem/pow/shl/cmp/decimal print/decimal parse on the extended operands equals the extension of the narrow result. (c) BITS, BYTES, MIN, MAX, ZERO, ONE..TEN, NEG_ONE..NEG_TEN for all 86 types and the aliases U128..I8192: enumerated completely. NON-TRIVIAL: (a) both main operands non-zero; (b) at least three operations had a representable exact result with non-zero operands; (c) every constant. distinct = distinct (profile, job, inputs) by 64-bit hash.",
+            rule: "(a) For each of the width groups {16, 32, 48, 64, 96, 128, 192, 320, 2080, 4160} (2-4 digit types each; the last two have more than 256 digits of the narrowest digit type and a twelfth of the budget) one operand tuple (three W-bit patterns structured for the 8-bit and for the widest digit size, a shift/rotate amount, an exponent, a radix, a text / byte string - decimal numerals with up to BITS + 8 redundant leading zeros among them -, float bits) is loaded into every member and a table of ~280 operations (every overflow mode of add/sub/mul/div/rem, shifts, rotations, bit operations, comparison, pow, ilog, radix output, parsing of strings and digit slices, byte slices, all eight formatting traits with three flag specifications, casts to f32/f64/every primitive and from floats, operators with their profile-dependent panic outcome) is evaluated in each; results are normalised to strings ('Panicked' for a panic; the error kind of long invalid strings, which the property leaves open, to 'Err(any)') and must be identical across the group, and As casts between the members must preserve the pattern. Differential oracle, no reference model. (b) 18 (narrow, wide) pairs (same and different digit types, zero- and sign-extension): whenever the exact result is representable in the narrow type (decided by the reference integer), add/sub/mul/div/rem/pow/shl/cmp/decimal print/decimal parse on the extended operands equals the extension of the narrow result. (c) BITS, BYTES, MIN, MAX, ZERO, ONE..TEN, NEG_ONE..NEG_TEN for all 86 types and the aliases U128..I8192: enumerated completely. NON-TRIVIAL: (a) both main operands non-zero; (b) at least three operations had a representable exact result with non-zero operands; (c) every constant. distinct = distinct (profile, job, inputs) by 64-bit hash.",
             assumptions: &[
                 "digits()/from_digits()/to_bits()/from_bits() are the trusted observation channel",
                 "(a) is purely differential: a defect common to all digit types is invisible here and is the business of C01-C15",
